@@ -70,10 +70,12 @@ func SeencheckItem(item *models.Item) error {
 	}
 
 	// For each child item, check if their URL was returned in the seencheck response. If not, mark them as seen.
+	// The response echoes the values that were sent, so it has to be compared with what was sent (the raw text):
+	// the canonical string can be spelt differently (e.g. "?12345" is sent, String() gives "?12345=").
 	for i := range items {
 		found := false
 		for j := range outputURLs {
-			if items[i].GetURL().String() == outputURLs[j].Value {
+			if items[i].GetURL().Raw == outputURLs[j].Value {
 				found = true
 				break
 			}
